@@ -272,13 +272,10 @@ func (p Payload) Normalize() Payload {
 					}
 					nt := Transform{Type: tr.Type, ID: tr.ID}
 					if tr.Attr != nil {
+						// both Value and Var are kept whatever the format: a decoder that leaves something in the
+						// field the format does not use is observable through the exported struct fields
 						a := *tr.Attr
 						a.Var = nb(a.Var)
-						if a.TV {
-							a.Var = nil
-						} else {
-							a.Value = 0
-						}
 						nt.Attr = &a
 					}
 					np.Transforms = append(np.Transforms, nt)
